@@ -78,6 +78,7 @@ pub enum Ev {
     IdHistoryDone { ops: u32, wraps: u32, max_outstanding: usize },
     SettleOverrun,
     ClockAdvanced { secs: u64 },
+    IdsPreset { packet_id: u16, sub_id: u32 },
 }
 
 #[derive(Clone, Copy, Debug, PartialEq, Eq)]
@@ -640,6 +641,18 @@ impl World {
             .map(|(r, _)| *r)
             .collect()
     }
+    /// The PUBREL of QoS 2 operation `op` is on the wire (after the latest transmission of its
+    /// PUBLISH; on the current connection if the PUBLISH went out on an earlier one).
+    pub fn pubrel_on_wire(&self, op: usize) -> bool {
+        let Some(&pid) = self.op_pid.get(&op) else { return false };
+        let Some(pub_at) = self.wire.iter().rev().find(|p| marker_of(&p.pkt) == Some(op)).map(|p| (p.conn, p.off)) else {
+            return false;
+        };
+        let cur = self.conn().unwrap_or(0);
+        self.wire.iter().any(|p| {
+            matches!(&p.pkt, Packet::Pubrel(a) if a.pid == pid) && ((p.conn == pub_at.0 && p.off > pub_at.1) || (p.conn > pub_at.0 && p.conn == cur))
+        })
+    }
     pub fn phase(&self) -> Phase {
         self.shared.phase.get()
     }
@@ -851,6 +864,10 @@ impl World {
             }
             BrokerPkt::Ack { op, kind, reasons, props, form } => {
                 let pid = *self.op_pid.get(op).ok_or_else(|| format!("request of op {op} not on the wire"))?;
+                // the scripted broker is conformant: it completes an exchange only after its PUBREL
+                if *kind == AckKind::Pubcomp && !self.pubrel_on_wire(*op) {
+                    return Err(format!("PUBREL of op {op} not on the wire"));
+                }
                 let p = ack(*kind, pid, reasons, props);
                 (rc::encode_form(&p, *form), Some(p), *form)
             }
@@ -1183,6 +1200,13 @@ impl World {
                 }
                 self.id_history(*seed, *ops, *clones, *max_outstanding);
             }
+            Step::SetNextIds { packet_id, sub_id } => match self.handles.iter().flatten().next() {
+                Some(h) => {
+                    h.verif_set_next_ids(*packet_id, *sub_id);
+                    self.shared.push(Ev::IdsPreset { packet_id: *packet_id, sub_id: *sub_id });
+                }
+                None => skip(self, "no handle left"),
+            },
             Step::AdvanceClock(secs) => {
                 self.clock += Duration::from_secs(*secs);
                 self.clock_secs += *secs;
